@@ -199,10 +199,10 @@ def describe(combo):
     return '[' + ', '.join('+'.join(sorted(c)) or '-' for c in combo) + ']'
 
 
-def check_first(ck, prog, fn, result_of, label):
+def check_first(ck, prog, fn, result_of, label, max_n=3):
     n = 0
     sites = set()
-    for combo in class_lists(FIRST_CLASSES, 3):
+    for combo in class_lists(FIRST_CLASSES, max_n):
         ports = [port(k) for k in range(len(combo))]
         hk = PortOracle(ports, combo)
         outs = run_fn(prog, fn, hk)
@@ -228,9 +228,9 @@ def check_first(ck, prog, fn, result_of, label):
     return sites
 
 
-def check_listing(ck, prog, fn):
+def check_listing(ck, prog, fn, max_n=3):
     n = 0
-    for combo in class_lists(FIRST_CLASSES, 3):
+    for combo in class_lists(FIRST_CLASSES, max_n):
         ports = [port(k) for k in range(len(combo))]
         hk = PortOracle(ports, combo)
         outs = run_fn(prog, fn, hk)
@@ -263,12 +263,12 @@ def lookup_classes(legacy):
     return out
 
 
-def check_lookup(ck, prog, fn, legacy):
+def check_lookup(ck, prog, fn, legacy, max_n=2):
     n = 0
     classes = lookup_classes(legacy)
     active = {'P1', 'P2', 'P3', 'P4'} | ({'P5'} if legacy else set())
     pname = fn.params[0]
-    for combo in class_lists(classes, 2):
+    for combo in class_lists(classes, max_n):
         ports = [port(k) for k in range(len(combo))]
         hk = PortOracle(ports, combo)
         outs = run_fn(prog, fn, hk, {pname: QUERY})
@@ -417,13 +417,14 @@ def run(ck, prog, tier):
     base, cls, family = most_derived(prog)
     f_first_l = prog.func('ebb_serial.findPort')
     f_first_e = prog.func('ebb3_serial.EBB3.find_first')
-    s1 = check_first(ck, prog, f_first_l, lambda o: o.value, 'findPort')
+    deep = tier == 'thorough'
+    s1 = check_first(ck, prog, f_first_l, lambda o: o.value, 'findPort', 4 if deep else 3)
     s2 = check_first(ck, prog, f_first_e, lambda o: o.state.fields.get(('self', 'port_name'), NONE),
-                     'find_first')
+                     'find_first', 4 if deep else 3)
     for q in ('ebb_serial.listEBBports', 'ebb3_serial.list_ebb_ports'):
-        check_listing(ck, prog, prog.func(q))
-    check_lookup(ck, prog, prog.func('ebb_serial.find_named_ebb'), True)
-    check_lookup(ck, prog, prog.func('ebb3_serial.find_named'), False)
+        check_listing(ck, prog, prog.func(q), 4 if deep else 3)
+    check_lookup(ck, prog, prog.func('ebb_serial.find_named_ebb'), True, 3 if deep else 2)
+    check_lookup(ck, prog, prog.func('ebb3_serial.find_named'), False, 3 if deep else 2)
     check_reported_names(ck, prog, prog.func('ebb_serial.list_named_ebbs'),
                          {'ebb_serial.listEBBports'}, True)
     check_reported_names(ck, prog, prog.func('ebb3_serial.list_named_ebbs'),
